@@ -137,6 +137,23 @@ RangeAdversarial ==
     \cup { RangeAdvCase(ty, st, tok, TRUE, vk, "str") : ty \in RTypes, st \in BOOLEAN, tok \in NumToks, vk \in {"str", "null"} }
     \cup { RangeAdvCase(ty, st, <<"0">>, FALSE, "str", fk) : ty \in RTypes, st \in BOOLEAN, fk \in ValueKinds }
 
+\* ---- keys and values, adversarially: odd key names x every kind of JSON value, in the default locale and in a second one
+KeyNames == { "k", "", "a-b", "type", "1a", "a b", "self", "_", "a.b", "a:b", "Self", "crate", "k_", "_one", "k_one_one" }
+AnyKinds == { "str", "null", "num", "neg", "float", "bool", "map", "emptymap", "seq", "emptyseq", "empty", "var" }
+AnyNode(k) == CASE k = "str" -> S(<<"x">>) [] k = "null" -> Raw("null") [] k = "num" -> Raw("5") [] k = "neg" -> Raw("-3")
+                [] k = "float" -> Raw("1.5") [] k = "bool" -> Raw("true") [] k = "map" -> MapNode(<< E("s", S(<<"x">>)) >>)
+                [] k = "emptymap" -> MapNode(<<>>) [] k = "seq" -> SeqNode(<< SeqNode(<< S(<<"x">>) >>) >>) [] k = "emptyseq" -> SeqNode(<<>>)
+                [] k = "var" -> S(VarX) [] OTHER -> S(<<>>)
+KeyAdversarial ==
+    { Double("key-adv", "any", << E(n, AnyNode(k1)), E("z", S(<<"z">>)) >>, << E(n, AnyNode(k2)), E("z", S(<<"z">>)) >>)
+      : n \in {"k", "a-b", "type"}, k1 \in AnyKinds, k2 \in AnyKinds }
+    \cup { Double("key-adv", "any", << E(n, AnyNode(k1)), E("z", S(<<"z">>)) >>, << E(n, AnyNode(k1)), E("z", S(<<"z">>)) >>)
+           : n \in KeyNames, k1 \in AnyKinds }
+\* plural members of every kind of value
+PluralAdversarial ==
+    { Double("plural-adv", "any", << E(b \o "_one", AnyNode(k1)), E(b \o "_other", AnyNode(k2)) >>, << E(b \o "_one", AnyNode(k2)), E(b \o "_other", AnyNode(k1)) >>)
+      : b \in {"k", "k_ordinal"}, k1 \in AnyKinds, k2 \in AnyKinds }
+
 \* nesting depth n (recursion of the splitter is inherent in nesting)
 DeepNest(n) == <<
   Single("nested-comps-" \o ToString(n), "ok", << E("a", S(NestedComps(n))) >>)
